@@ -26,6 +26,14 @@ func GenBeacon(prop string, seed uint64, tier string) *BeaconScenario {
 	sc.PeriodS = []int{1, 2, 2, 3, 3, 5}[r.Intn(6)]
 	sc.Backend = r.Pick("bolt-trimmed", "bolt-trimmed", "bolt", "memdb")
 	sc.MemSize = r.Range(10, 40)
+	if r.Bool(25) {
+		for i := 0; i < sc.N; i++ {
+			sc.Backends = append(sc.Backends, r.Pick("bolt-trimmed", "bolt", "memdb"))
+		}
+	}
+	if sc.N >= 3 && r.Bool(15) {
+		sc.Hole = r.Range(1, sc.N)
+	}
 	sc.GenesisInS = r.Range(2, 4)
 	// network
 	sc.Net = NetPlan{BaseUs: []int{200, 1000, 5000, 20000}[r.Intn(4)], JitterUs: []int{100, 2000, 20000, 60000}[r.Intn(4)]}
@@ -102,7 +110,7 @@ func GenBeacon(prop string, seed uint64, tier string) *BeaconScenario {
 	add := func(a Act) { sc.Script = append(sc.Script, a) }
 	// which fault kinds this run uses
 	use := map[string]bool{}
-	for _, k := range []string{"partition", "stop", "jump", "stall", "slow", "cut", "loss", "byz", "observe"} {
+	for _, k := range []string{"partition", "stop", "jump", "stall", "slow", "cut", "loss", "byz", "observe", "store_err", "slow_store", "reshare"} {
 		use[k] = r.Bool(45)
 	}
 	switch prop {
@@ -163,6 +171,16 @@ func GenBeacon(prop string, seed uint64, tier string) *BeaconScenario {
 		if !sc.ExpectNone {
 			kinds = append(kinds, "dup", "valid", "replay_old", "future", "flood", "wrong_prev")
 		}
+		kinds = append(kinds, "evicted_member", "old_epoch", "old_epoch")
+		if k >= sc.T && r.Bool(50) {
+			// the group switches to another threshold in the middle of the run
+			lo := sc.N/2 + 1
+			if nt := r.Range(lo, k); nt != sc.T || r.Bool(30) {
+				sc.Reshare = &Reshare{AtRound: uint64(r.Range(3, 5)), NewT: nt}
+				sc.Reshare.AnnounceMs = g0 + int64(sc.Reshare.AtRound-2)*periodMs - int64(r.Intn(int(periodMs)))
+				add(Act{AtMs: sc.Reshare.AnnounceMs, Kind: "reshare"})
+			}
+		}
 		for i, ro := range sc.Roles {
 			if ro != "byz" {
 				continue
@@ -216,11 +234,26 @@ func GenBeacon(prop string, seed uint64, tier string) *BeaconScenario {
 	if use["stall"] && len(honest) > 0 {
 		add(Act{AtMs: at(), Kind: "stall", Node: honest[r.Intn(len(honest))], A: int64(r.Range(sc.PeriodS*500, sc.PeriodS*3500))})
 	}
+	if use["store_err"] && len(honest) > 0 {
+		add(Act{AtMs: at(), Kind: "store_err", Node: honest[r.Intn(len(honest))], A: int64(r.Range(1, 2))})
+	}
+	if use["slow_store"] && len(honest) > 0 {
+		add(Act{AtMs: at(), Kind: "slow_store", Node: honest[r.Intn(len(honest))], A: int64(r.Range(sc.PeriodS*100, sc.PeriodS*1300)), B: int64(r.Range(1, 3)) * periodMs})
+	}
+	if use["reshare"] && faultRounds >= 5 {
+		lo := sc.N/2 + 1
+		hi := len(honest)
+		if hi >= lo {
+			sc.Reshare = &Reshare{AtRound: uint64(r.Range(4, faultRounds)), NewT: r.Range(lo, hi)}
+			sc.Reshare.AnnounceMs = g0 + int64(sc.Reshare.AtRound-1)*periodMs - int64(r.Range(int(periodMs), int(2*periodMs)))
+			add(Act{AtMs: sc.Reshare.AnnounceMs, Kind: "reshare"})
+		}
+	}
 	if use["slow"] {
 		add(Act{AtMs: at(), Kind: "slow", Node: r.Intn(sc.N), A: int64(r.Range(50, sc.PeriodS*1200))})
 	}
 	if use["byz"] && len(byz) > 0 {
-		kinds := []string{"valid", "dup", "wrong_round", "wrong_prev", "random_scalar", "other_index", "victim_index", "nonmember_index", "truncated", "bitflip", "replay_old", "future", "flood"}
+		kinds := []string{"valid", "dup", "wrong_round", "wrong_prev", "random_scalar", "other_index", "victim_index", "nonmember_index", "truncated", "bitflip", "replay_old", "future", "flood", "evicted_member", "old_epoch"}
 		for k := r.Range(3, 12); k > 0; k-- {
 			add(Act{AtMs: at(), Kind: "byz", Node: byz[r.Intn(len(byz))], S: kinds[r.Intn(len(kinds))], A: int64(r.Range(-1, 2)), B: int64(r.Range(5, 60))})
 		}
@@ -229,6 +262,17 @@ func GenBeacon(prop string, seed uint64, tier string) *BeaconScenario {
 		for k := r.Range(1, 3); k > 0; k-- {
 			add(Act{AtMs: at(), Kind: "observe", Node: honest[r.Intn(len(honest))], A: int64(r.Range(0, faultRounds)), B: int64(r.Range(2, 8))})
 		}
+	}
+	if sc.Reshare != nil {
+		// restarts around a transition are the daemon's business (which group a restarted
+		// process loads is decided by core, exercised in E-daemon): no stop/start here
+		kept := sc.Script[:0]
+		for _, a := range sc.Script {
+			if a.Kind != "stop" && a.Kind != "start" {
+				kept = append(kept, a)
+			}
+		}
+		sc.Script = kept
 	}
 	// every stopped node is started again before heal; heal ends every fault
 	sc.HealAtMs = faultEnd
